@@ -120,6 +120,7 @@ fn run_hist(args: &Args, oracle: Oracle, mix: Mix) -> (Report, String, bool) {
     let nt = docs_t.len();
     let label = args.property.clone();
     let seed = args.seed;
+    let thresholds = hist::threshold_cases(true);
     let total = report::sharded(SHARDS, |shard| {
         let mut rep = Report::new();
         // singles and ordered pairs of the attribute family
@@ -159,6 +160,13 @@ fn run_hist(args: &Args, oracle: Oracle, mix: Mix) -> (Report, String, bool) {
             );
             hist::run_case(&c, oracle, &mut rep);
         }
+        // threshold families (deterministic): counts, widths, depths and text lengths around powers of two
+        for (i, c) in thresholds.iter().enumerate() {
+            if i % SHARDS == shard {
+                hist::run_case(c, oracle, &mut rep);
+                rep.count("threshold_cases");
+            }
+        }
         // random histories
         let per = n_random / SHARDS as u64;
         for k in 0..per {
@@ -169,7 +177,7 @@ fn run_hist(args: &Args, oracle: Oracle, mix: Mix) -> (Report, String, bool) {
         rep
     });
     let rule = format!(
-        "histories parse(D1),extend(D2..Dk) through the real parser: (1) exhaustive — every document over names {{a,b}} under root r with <= {} elements below the root, depth <= 2, attribute k on or off ({} documents; all singles and all {} ordered pairs) and every ordered pair of the {} documents with <= 2 elements and text on/off; (2) sampled triples of those; (3) {} seeded random histories (profiles tiny/general/many-docs/adversarial names, 1-6 documents, random surface syntax and reader kinds). Non-trivial: the reference schema has more than one position or an attribute; distinct: hash of (canonical reference schema, rendered bytes).",
+        "histories parse(D1),extend(D2..Dk) through the real parser: (1) exhaustive — every document over names {{a,b}} under root r with <= {} elements below the root, depth <= 2, attribute k on or off ({} documents; all singles and all {} ordered pairs) and every ordered pair of the {} documents with <= 2 elements and text on/off; (2) sampled triples of those; (3) {} seeded random histories (profiles tiny/general/many-docs/adversarial names/wide/deep/long-list, 1-16 documents, random surface syntax and reader kinds); (4) deterministic threshold families: N occurrences of a parent (254..513, 65535..65537), N same-named children in one occurrence (255..1024, 65536, 131072), M distinct child or attribute names (63..300) with late repeats / late absences, chains of depth 7..300 (same name, distinct names, alternating, two branches, deep part arriving with the third document), text/CDATA nodes with a multi-byte character straddling offsets 64..4096. Non-trivial: the reference schema has more than one position or an attribute; distinct: hash of (canonical reference schema, rendered bytes).",
         if thorough { 4 } else { 3 },
         na,
         na * na,
